@@ -55,12 +55,22 @@ Definition obs_pre (cs : amap pconf) (o : obs) (te : tid * event) : obs :=
     | ENewInst i n, _ =>
         let byapi := match get th (o_api o) with Some OpRun | None => false | Some _ => true end in
         let dup := existsb (fun y => N.eqb (o_nm y) n && negb (o_ended y)) (vals (oi o)) in
-        (o <| oi := set i (mkOI n (o_cnt o) 0 false None None false false false false false false false 0 false false byapi false false) (oi o) |>
+        (o <| oi := set i (mkOI n (o_cnt o) 0 false None None false false false false false false false 0 false false byapi false false false []) (oi o) |>
            <| w_dup := w_dup o || dup |>
            <| w_zombie := w_zombie o || existsb (fun y => N.eqb (o_nm y) n && o_ended y && negb (o_gone y)) (vals (oi o)) |>
            <| o_cnt := S (o_cnt o) |>
            <| o_after_sd_spawn := if Nat.ltb 0 (o_sd_done o) && byapi then i :: o_after_sd_spawn o else o_after_sd_spawn o |>)
     | EBegin i, _ => o <| o_th := set th i (o_th o) |>
+    | ERegAdd i _, _ =>
+        oi_upd i (fun x => x <| o_idx := if o_reg x then o_idx x else o_cnt o |> <| o_reg := true |>)
+               (o <| o_cnt := S (o_cnt o) |>)
+    | ERegGet n None, _ => o <| o_lk := set th (n, o_cnt o) (o_lk o) |>
+    | EDepWait k found, Some i =>
+        let b := match get th (o_lk o) with
+                 | Some (k', b) => if N.eqb k' k then b else o_cnt o
+                 | None => o_cnt o
+                 end in
+        oi_upd i (fun x => x <| o_waits := o_waits x ++ [(k, found, b)] |>) o
     | EApiBegin op, _ => o <| o_api := set th op (o_api o) |>
                            <| o_spawning := match op with OpRun => true | _ => o_spawning o end |>
     | ERunSpawned, _ => o <| o_spawning := false |>
